@@ -443,6 +443,14 @@ def plain_options(rule, prog, getters):
                 if st["k"] == "assign" and st["place"]["l"] == 1 and len(st["place"]["p"]) == 2 and st["place"]["p"][0] == "*" \
                         and isinstance(st["place"]["p"][1], dict) and st["place"]["p"][1].get("n") == field:
                     writers.append((k, b, st))
+                elif st["k"] == "assign" and st["place"]["l"] == 1 and len(st["place"]["p"]) == 3 and st["place"]["p"][0] == "*" \
+                        and all(isinstance(x_, dict) and "n" in x_ for x_ in st["place"]["p"][1:]):
+                    # the option kept in a helper struct embedded in the configuration (`self.output.smart_quote`): the helper's field is the
+                    # configuration's own (the same dissolution the readers use)
+                    from engine import mir as _mir
+                    d_ = _mir.DISSOLVE.get(st["place"]["p"][1]["n"])
+                    if d_ and d_.get("owner") == cfg and d_["rename"].get(st["place"]["p"][2]["n"]) == field:
+                        writers.append((k, b, st))
         if len(writers) != 1:
             rule.violation(key, "the field %s behind %s is written by %d Config methods (%s); expected exactly one setter" %
                            (field, g, len(writers), ", ".join(w[0].rsplit("::", 1)[-1] for w in writers)), fn_line(prog, gk[0]))
